@@ -15,6 +15,8 @@ if ! git apply --check $SRC/patch$N.diff 2>/dev/null; then
 else PATCH=$SRC/patch$N.diff; fi
 pkg=$(grep -m1 '^package ' $SRC/demo${N}_test.go | awk '{print $2}')
 case $pkg in roaring|roaring_test) dir=. ;; roaring64|roaring64_test) dir=roaring64 ;; *) dir=BitSliceIndexing ;; esac
+# the 32-bit BSI package is also called "roaring": look at what the patch touches / what the demo imports
+if [ "$dir" = "." ] && grep -q '^diff --git a/BitSliceIndexing/' $PATCH && ! grep -q '^diff --git a/[a-z_0-9]*\.go' $PATCH; then dir=BitSliceIndexing; fi
 git apply $PATCH
 suite=$(python3 /verif/tools/baseline.py $WT | head -1)
 cp $SRC/demo${N}_test.go $dir/zz_seed_demo_test.go
